@@ -2,7 +2,6 @@ package filter
 
 import (
 	"github.com/mgtv-tech/redis-GunYu/pkg/redis"
-	"sort"
 )
 
 type Range struct {
@@ -47,20 +46,43 @@ func (rl *RangeList) IsSlotInList(key string) bool {
 	return false
 }
 
+// InsertSlotInList adds the closed range [left, right].  The list is kept sorted
+// and disjoint: the new range is merged with every range it overlaps or touches,
+// so that the binary search in IsSlotInList stays valid whatever the order and
+// shape (overlapping, nested, duplicated) of the configured ranges.
 func (rl *RangeList) InsertSlotInList(left, right uint16) {
-	if left <= right {
-		newRange := &Range{Left: left, Right: right}
-		i := sort.Search(len(rl.list), func(i int) bool {
-			return rl.list[i].Left > left
-		})
-		rl.list = append(rl.list, nil)
-		copy(rl.list[i+1:], rl.list[i:])
-		rl.list[i] = newRange
-		if left < rl.minLeft {
-			rl.minLeft = left
-		}
-		if right > rl.maxRight {
-			rl.maxRight = right
+	if left > right {
+		return
+	}
+	nr := &Range{Left: left, Right: right}
+	merged := make([]*Range, 0, len(rl.list)+1)
+	placed := false
+	for _, r := range rl.list {
+		switch {
+		case uint32(r.Right)+1 < uint32(nr.Left):
+			// r lies entirely before the new range
+			merged = append(merged, r)
+		case uint32(nr.Right)+1 < uint32(r.Left):
+			// r lies entirely after the new range
+			if !placed {
+				merged = append(merged, nr)
+				placed = true
+			}
+			merged = append(merged, r)
+		default:
+			// r overlaps or is adjacent to the new range: absorb it
+			if r.Left < nr.Left {
+				nr.Left = r.Left
+			}
+			if r.Right > nr.Right {
+				nr.Right = r.Right
+			}
 		}
 	}
+	if !placed {
+		merged = append(merged, nr)
+	}
+	rl.list = merged
+	rl.minLeft = merged[0].Left
+	rl.maxRight = merged[len(merged)-1].Right
 }
